@@ -76,7 +76,7 @@ def table_of(m):
 
 
 def t2p_of(m):
-    return [[k[1], None if k[2] is None else ord(k[2]), ord(v)] for k, v in m.tag2placeholder.items()]
+    return [[k[1], None if k[2] is None else ord(k[2]), ord(v), k[0]] for k, v in m.tag2placeholder.items()]
 
 
 EXC = {"IndexError": "EIndex", "AttributeError": "ENoParent", "RecursionError": "EFuel", "KeyError": "EKey"}
@@ -508,13 +508,127 @@ def gen_scenarios(run, rng):
 
 
 # ----------------------------------------------------------------------------
+# the serialisation stream: XV.Serialize.serialize vs etree.tounicode, and the parser on the real string
+
+NASTY = ["&", "<", ">", '"', "'", "\n", "\t", "\r", " ", "a", "b", ";", "#", "-", "?", "=", "/", "amp;", "&#13;", "]]>",
+         "\xe9", "\u4e2d", "\U0001F600", "\x7f", "\x85", "\u2028", "\ue007"]
+SER_NAMES = ["k", "j", "id", "old-text", "a.b", "a-b", "a_b", "\xe9", "x9"]
+SER_TAGS = TAGS + ["a.b", "a-b", "a_b", "\xe9l", "x9"]
+
+
+def nasty(rng, empty_ok=True):
+    r = rng.random()
+    if r < 0.12 and empty_ok:
+        return None
+    if r < 0.22:
+        return ""
+    return "".join(rng.choice(NASTY) for _ in range(rng.randint(1, 5)))
+
+
+def gen_ser_cpi(rng):
+    while True:
+        txt = nasty(rng, False) or ""
+        if rng.random() < 0.5:
+            if "--" in txt or txt.endswith("-"):
+                continue
+            return ["#comment", [], txt, nasty(rng) or "", []]
+        if "?>" in txt:
+            continue
+        return ["#pi:" + rng.choice(["pagebreak", "q", "a.b"]), [], txt, nasty(rng) or "", []]
+
+
+def gen_ser_tree(rng, depth, root=False):
+    if not root and rng.random() < 0.2:
+        return gen_ser_cpi(rng)
+    names = rng.sample(SER_NAMES, rng.choice([0, 0, 1, 2, 3]))
+    attrs = [[n, nasty(rng, False) or ""] for n in names]
+    n = 0 if depth <= 0 else rng.choice([0, 0, 1, 2, 3])
+    return [rng.choice(SER_TAGS), attrs, nasty(rng), nasty(rng) or "", [gen_ser_tree(rng, depth - 1) for _ in range(n)]]
+
+
+def gen_ser_cases(run, rng):
+    """(prefix, tree, how) -- how: 'api' (built through the API) or ('parse', xml) (parsed, so that <?t?> occurs)"""
+    n = 400 if run.tier == "quick" else 4000
+    out = []
+    # fixed corner cases: empty vs absent text, with and without children; PI forms; everything escaped at once
+    for t in (["a", [], None, "", []], ["a", [], "", "", []], ["a", [], "", "", [["b", [], None, "", []]]],
+              ["a", [], None, "", [["b", [], "", "x", []]]], ["a", [["k", "&<>\"'\n\t\r"]], "&<>\"'\n\t\r", "&<>\r", []],
+              ["#pi:t", [], "", "", []], ["#pi:t", [], " x", "", []], ["#comment", [], "", "", []], ["#comment", [], "a - b", "t", []]):
+        out.append(("ns0", t))
+    for _ in range(n):
+        t = gen_ser_tree(rng, rng.randint(0, 3), root=True)
+        r = rng.random()
+        if r < 0.25:
+            # what mark_diff / wrap_diff make: diff:* attributes on the key element, or the maker's own elements
+            k = rng.choice(["insert", "delete", "insert-formatting", "replace", "rename"])
+            t[1].insert(rng.randint(0, len(t[1])), ["{%s}%s" % (DIFF_NS, k), rng.choice(["", "x", "a&b"])])
+            if rng.random() < 0.3:
+                t[1].append(["{%s}%s" % (DIFF_NS, "update-attr"), nasty(rng, False) or ""])
+        elif r < 0.32:
+            t[0] = "{%s}%s" % (DIFF_NS, rng.choice(["insert", "delete", "replace"]))
+        out.append(("ns0", t))
+    return out
+
+
+SER_PRE = """From Coq Require Import List NArith Bool. Import ListNotations.
+Require Import XV.Placeholder XV.Serialize. Local Open Scope N_scope.
+Notation X := XNode.
+Definition case := (str * xtree * str)%type.
+Definition check (c : case) : bool :=
+  let '(P, t, expected) := c in
+  str_eqb (serialize P t) expected && key_ok t && prefix_ok P &&
+  match parse P (pneed t) expected with Some u => xtree_eqb u (knorm t) | None => false end.
+"""
+
+
+def run_ser(run, rng, build_ok):
+    from lxml import etree
+    cases = gen_ser_cases(run, rng)
+    # a few through the parser (a PI without content prints <?t?>, one with empty content <?t ?>)
+    parsed = []
+    for xml in ("<r><?q?>x<?q ?><?q  y ?><!----></r>", "<r a='1' b=\"&quot;'\">&amp;<b/>&#13;</r>", "<r><a></a><a/><a> </a></r>"):
+        e = etree.fromstring(xml)
+        parsed.append(("ns0", canon_ser(e), etree.tounicode(e)))
+    rows = [(P, t, etree.tounicode(build_root(t))) for P, t in cases] + parsed
+    # once everything else has run: register the prefix the formatter registers and check the other prefix
+    return cases, rows
+
+
+def canon_ser(e):
+    """canon, but telling a PI without content (<?t?>) from one with empty content (<?t ?>)"""
+    from lxml import etree
+    if e.tag is etree.PI:
+        body = etree.tounicode(e, with_tail=False)
+        return ["#pi:" + e.target, [], None if body == "<?%s?>" % e.target else e.text, e.tail or "", []]
+    if e.tag is etree.Comment:
+        return ["#comment", [], e.text, e.tail or "", []]
+    return [e.tag, [[k, v] for k, v in e.attrib.items()], e.text, e.tail or "", [canon_ser(c) for c in e]]
+
+
+def ser_rows_diff_prefix(run, rng):
+    """after etree.register_namespace('diff', ...) new diff:* names print with the prefix 'diff'"""
+    from lxml import etree
+    etree.register_namespace("diff", DIFF_NS)
+    rows = []
+    for _ in range(40 if run.tier == "quick" else 300):
+        t = gen_ser_tree(rng, rng.randint(0, 2), root=True)
+        if rng.random() < 0.7:
+            t[1].append(["{%s}%s" % (DIFF_NS, rng.choice(["insert", "delete"])), ""])
+        else:
+            t[0] = "{%s}insert" % DIFF_NS
+        rows.append(("diff", t, etree.tounicode(build_root(t))))
+    return rows
+
+
+# ----------------------------------------------------------------------------
 # Gallina side
 
 PRE = """From Coq Require Import List NArith Bool. Import ListNotations.
-Require Import XV.Placeholder. Local Open Scope N_scope.
+Require Import XV.Placeholder XV.Serialize. Local Open Scope N_scope.
 Notation X := XNode.
+Definition NS0 : str := [110;115;48].
 Inductive step := SOp (o : op) (r : opres) | SUndo (t : xtree) (r : res xtree)
-  | STable (tb : list (N * entry)) (c : N) (tk : list (ttype * option N * N))
+  | STable (tb : list (N * entry)) (c : N) (tk : list (ttype * option N * N)) (keys : list str)
   | SSplit (x : str) (r : list str) (isp : list bool).
 Definition case := (list str * list str * list step)%type.
 Definition err_eqb (a b : err) : bool :=
@@ -537,9 +651,12 @@ Fixpoint run (tt fmt : list str) (s : state) (steps : list step) : bool :=
   | SUndo t r :: rest =>
     (match undo_tree s t, r with Ok a, Ok b => xtree_eqb a b | Err a, Err b => err_eqb a b | _, _ => false end)
     && run tt fmt s rest
-  | STable tb c tk :: rest =>
+  | STable tb c tk keys :: rest =>
     list_eqb entry_eqb (rev (p2t s)) tb && N.eqb (ctr s) c
     && list_eqb tk_eqb (map (fun kc => (snd (fst (fst kc)), snd (fst kc), snd kc)) (rev (t2p s))) tk
+    (* the real dictionary keys are the serialisations of the model's key elements, all inside the fragment *)
+    && list_eqb str_eqb (map (fun kc => serialize NS0 (fst (fst (fst kc)))) (rev (t2p s))) keys
+    && forallb (fun kc => key_ok (fst (fst (fst kc)))) (t2p s)
     && run tt fmt s rest
   | SSplit x r isp :: rest =>
     list_eqb str_eqb (split_string s x) r && list_eqb Bool.eqb (map (is_ph s) x) isp && run tt fmt s rest
@@ -598,7 +715,8 @@ def ctrace(tr):
         return "SSplit %s [%s] [%s]" % (cs(tr[1]), ";".join(cs(x) for x in tr[2]), ";".join("true" if b else "false" for b in tr[3]))
     tb = "[" + ";".join("(%d,(%s,%s,%s))" % (e[0], ctree(e[1]), TT[e[2]], con(e[3])) for e in tr[1]) + "]"
     tk = "[" + ";".join("(%s,%s,%d)" % (TT[e[0]], con(e[1]), e[2]) for e in tr[3]) + "]"
-    return "STable %s %d %s" % (tb, tr[2], tk)
+    keys = "[" + ";".join(cs(e[3]) for e in tr[3]) + "]"
+    return "STable %s %d %s %s" % (tb, tr[2], tk, keys)
 
 
 def coq_case(sc, trace):
@@ -646,15 +764,21 @@ def main(run):
                                             "round_trip_failures_on_impl": len(known)}
     idx = [i for i, tr in enumerate(traces) if tr is not None and modelable(tr)]
     skipped = len(scs) - len(idx)
+    # serialisation stream (the prefix registration is process-global, hence after every maker run above)
+    _, ser_rows = run_ser(run, rng, pinfo.get("build_ok"))
+    ser_rows += ser_rows_diff_prefix(run, rng)
+    ser_bad, ser_log = [], ""
     bad, log = [], ""
     if pinfo.get("build_ok"):
         # a name of our own, so that concurrent runs (other tiers) do not overwrite each other's case files
         cname = "C11%s%d" % (run.tier[0], os.getpid())
         try:
             bad, log = lib.run_cases(cname, PRE, [coq_case(scs[i], traces[i]) for i in idx], chunk=max(60, len(idx) // 48 + 1))
+            ser_bad, ser_log = lib.run_cases(cname + "s", SER_PRE, ["(%s, %s, %s)" % (cs(P), ctree(t), cs(x)) for P, t, x in ser_rows],
+                                             chunk=max(40, len(ser_rows) // 16 + 1))
         finally:
             for f in os.listdir(lib.CASES):
-                if f.startswith(cname + "_") or f.startswith("." + cname + "_"):
+                if f.startswith(cname + "_") or f.startswith("." + cname + "_") or f.startswith(cname + "s_") or f.startswith("." + cname + "s_"):
                     try:
                         os.unlink(os.path.join(lib.CASES, f))
                     except OSError:
@@ -665,7 +789,11 @@ def main(run):
     nsteps = sum(len(traces[i]) for i in idx)
     corr = [{"name": "formatting.PlaceholderMaker (do_tree, tables, undo_tree, get_placeholder, mark_diff, wrap_diff) vs XV.Placeholder",
              "cases": len(idx), "bad": bad, "log": log,
-             "describe": lambda i: {"scenario": scs[i], "impl_trace": traces[i]}}]
+             "describe": lambda i: {"scenario": scs[i], "impl_trace": traces[i]}},
+            {"name": "etree.tounicode vs XV.Serialize.serialize (and XV.Serialize.parse on the real string)",
+             "cases": len(ser_rows), "bad": ser_bad, "log": ser_log,
+             "describe": lambda i: {"prefix": ser_rows[i][0], "tree": ser_rows[i][1], "tounicode": ser_rows[i][2]}}]
+    run.log("serialisation: %d subtrees, %d disagreements" % (len(ser_rows), len(ser_bad)))
 
     def deeper():
         out = []
@@ -712,7 +840,7 @@ def main(run):
         "samples": [{"scenario": scs[i], "impl_trace": json.loads(json.dumps(traces[i]))} for i in idx[nexh:nexh + 2]],
     })
     run.assumptions = [
-        "etree.tounicode is injective on subtrees as modelled by XV.Placeholder.knorm (attribute order as stored; '' text before children = no text)",
+        "etree.tounicode is modelled by XV.Serialize.serialize on the fragment key_ok (no namespaces except the maker's own diff namespace on the key element, prefix ns0/diff; XML names; comments without '--', PIs without '?>'); compared with lxml on every run, incl. the real tag2placeholder keys of every scenario; its injectivity up to knorm is PROVED (Properties/C11_serial.v), not assumed",
         "documents use no namespaces (in particular not the diff namespace); chr() range (U+10FFFF) not reached",
         "comments / processing instructions are childless nodes with reserved tag names (#comment, #pi:<target>, text = content), never listed in text_tags / formatting_tags; mark_diff on their placeholders is not modelled",
         "table elements are compared by the value they have when do_tree returns (live objects are mutated during do_tree; nothing reads them meanwhile)",
